@@ -1327,9 +1327,16 @@ impl IQLEngine {
             }
         }
 
-        // Ensure the last IR node (the query) stays last in execution order.
-        // The query is always the last parsed rule and must execute after all others.
-        let last_idx = n - 1;
+        // Ensure the query stays last in execution order. The query is the head of the
+        // last parsed rule; its IR node is NOT necessarily the last one, because IR nodes
+        // follow the first appearance of each head (an earlier clause of the query head, or
+        // helper rules emitted after it by SIP rewriting, would otherwise run after it).
+        let last_idx = self
+            .program
+            .as_ref()
+            .and_then(|p| p.rules.last())
+            .and_then(|r| head_to_idx.get(r.head.relation.as_str()).copied())
+            .unwrap_or(n - 1);
         if let Some(pos) = order.iter().position(|&i| i == last_idx) {
             if pos != order.len() - 1 {
                 order.remove(pos);
